@@ -78,10 +78,18 @@ func runC07(e *Env) {
 			returnsErr := func(blk *ssa.BasicBlock) bool {
 				reg := flow.Region(b, blk)
 				n := 0
+				gv := flow.G(val)
 				for x := range reg {
 					if ret, ok := x.Instrs[len(x.Instrs)-1].(*ssa.Return); ok {
 						n++
 						if !flow.KnownNonNilError(flow.RetResults(ret)[0], x) {
+							return false
+						}
+					}
+					// nothing leaves the region: a further condition inside it (`len == 0 && something`) whose other arm
+					// goes on with validation makes the rejection conditional
+					for _, sx := range gv.Succs(x) {
+						if !reg[sx] {
 							return false
 						}
 					}
@@ -120,6 +128,11 @@ func runC07(e *Env) {
 	if ts == nil {
 		r.Unknown("E3.reject-inventory", "toSyscallsWithConditions", "", "not found")
 	} else {
+		// "never silently drops a rule", "an unknown name is an error": every listed name - plain or conditional - ends in
+		// exactly one of {entry, merge, problem}; a name that is skipped before it is looked up is neither compiled nor
+		// reported (the same rules decide C01's and C03's "every listed syscall")
+		checkNoDrop(e, m, ts)
+		checkMerge(e, m)
 		classes := map[string]int{}
 		for _, b := range ts.Blocks {
 			ifi, ok := flow.LastIf(b)
